@@ -109,6 +109,10 @@ theorem wfArea_header_junk (e u : Nat) (junk : Bytes) (hu : u < 2 ^ 64) (he : Er
   uniq := by rw [msgUnique_header, Nat.mod_eq_of_lt hu]
   err := by rw [msgErr_header, Nat.mod_eq_of_lt (errOk_lt e he)]; exact he
 
+/-- a reply reached the client: one fd write on /dev/fuse, a non-empty area on virtio-fs -/
+def Replied (cfg : Cfg) (r : Res) : Prop :=
+  if cfg.fusedev then r.out.sys.length = 1 else r.out.area ≠ []
+
 /-- the reply-stream invariant -/
 structure Good (cfg : Cfg) (unique : Nat) (r : Res) : Prop where
   noPanic : ∀ s, r.ret ≠ .panic s
@@ -117,30 +121,36 @@ structure Good (cfg : Cfg) (unique : Nat) (r : Res) : Prop where
   sepV : cfg.fusedev = false → r.out.sys = []
   sysWf : ∀ m ∈ r.out.sys, WfMsg unique m
   areaWf : r.out.area = [] ∨ WfArea unique r.out.area
+  /-- a positive return value means a reply went out -/
+  okReplied : ∀ n, r.ret = .ok n → 0 < n → Replied cfg r
 
-theorem good_silent (cfg : Cfg) (u : Nat) (r : Res) (ho : r.out = {}) (hr : ∀ s, r.ret ≠ .panic s) :
-    Good cfg u r where
+theorem good_silent (cfg : Cfg) (u : Nat) (r : Res) (ho : r.out = {}) (hr : ∀ s, r.ret ≠ .panic s)
+    (h0 : ∀ n, r.ret = .ok n → n = 0) : Good cfg u r where
   noPanic := hr
   oneWrite := by simp [ho]
   sepF := by simp [ho]
   sepV := by simp [ho]
   sysWf := by simp [ho]
   areaWf := by simp [ho]
+  okReplied := by intro n h hp; have := h0 n h; omega
 
 theorem good_bail (cfg : Cfg) (u : Nat) (calls : List Call) (al : List Nat) (e : SrvErr) :
     Good cfg u (bail cfg calls al e) :=
-  good_silent cfg u _ rfl (by intro s; simp [bail])
+  good_silent cfg u _ rfl (by intro s; simp [bail]) (by intro n h; simp [bail] at h)
 
 /-- one complete message `m` emitted on an unsplit writer -/
 theorem good_emit (cfg : Cfg) (u : Nat) (r : Res) (m : Bytes) (hm : WfMsg u m)
     (ho : r.out = emit cfg m) (hr : ∀ s, r.ret ≠ .panic s) : Good cfg u r := by
+  have hne : m ≠ [] := by intro h; have := hm.len16; simp [h] at this
   cases hf : cfg.fusedev
   · have : r.out = { area := m } := by rw [ho]; simp [emit, hf]
     exact { noPanic := hr, oneWrite := by simp [this], sepF := by simp [hf], sepV := by simp [this],
-            sysWf := by simp [this], areaWf := by right; simp [this]; exact wfArea_of_wfMsg hm }
+            sysWf := by simp [this], areaWf := by right; simp [this]; exact wfArea_of_wfMsg hm,
+            okReplied := by intro n _ _; simp [Replied, hf, this, hne] }
   · have : r.out = { sys := [m] } := by rw [ho]; simp [emit, hf]
     exact { noPanic := hr, oneWrite := by simp [this], sepF := by simp [this], sepV := by simp [hf],
-            sysWf := by simp [this]; exact hm, areaWf := by left; simp [this] }
+            sysWf := by simp [this]; exact hm, areaWf := by left; simp [this],
+            okReplied := by intro n _ _; simp [Replied, hf, this] }
 
 theorem replyErr_cases (cfg : Cfg) (u : Nat) (e : IoErr) :
     (replyErr cfg u e = ({}, .err .encodeMessage) ∧ cfg.cap < 16) ∨
@@ -172,18 +182,28 @@ theorem wf_okMsg (cfg : Cfg) (u : Nat) (body data : Bytes) (hu : u < 2 ^ 64) (hc
     (by simp; omega) (by omega) hu (Or.inl rfl)
   simpa [List.append_assoc] using this
 
-/-- any result whose output and return value are those of `replyErr` -/
+/-- any result whose output is that of `replyErr` and whose return value is `replyErr`'s or
+    never a positive `ok` -/
 theorem good_of_replyErr (cfg : Cfg) (u : Nat) (e : IoErr) (r : Res) (hu : u < 2 ^ 64) (he : e.Sane)
-    (ho : r.out = (replyErr cfg u e).1) (hr : ∀ s, r.ret ≠ .panic s) : Good cfg u r := by
+    (ho : r.out = (replyErr cfg u e).1) (hr : ∀ s, r.ret ≠ .panic s)
+    (hret : r.ret = (replyErr cfg u e).2 ∨ ∀ n, r.ret ≠ .ok n) : Good cfg u r := by
   rcases replyErr_cases cfg u e with ⟨h, _⟩ | ⟨h, _⟩
-  · exact good_silent cfg u r (by rw [ho, h]) hr
+  · refine good_silent cfg u r (by rw [ho, h]) hr ?_
+    intro n hn
+    rcases hret with h' | h'
+    · rw [h', h] at hn; cases hn
+    · exact absurd hn (h' n)
   · exact good_emit cfg u r _ (wf_errHeader u e hu he) (by rw [ho, h]) hr
 
 theorem good_of_replyOk (cfg : Cfg) (u : Nat) (body data : Bytes) (r : Res) (hu : u < 2 ^ 64)
-    (hcap : cfg.cap < 2 ^ 32) (ho : r.out = (replyOk cfg u body data).1) (hr : ∀ s, r.ret ≠ .panic s) :
-    Good cfg u r := by
+    (hcap : cfg.cap < 2 ^ 32) (ho : r.out = (replyOk cfg u body data).1) (hr : ∀ s, r.ret ≠ .panic s)
+    (hret : r.ret = (replyOk cfg u body data).2 ∨ ∀ n, r.ret = .ok n → n = 0) : Good cfg u r := by
   rcases replyOk_cases cfg u body data with ⟨h, _⟩ | ⟨h, hfit⟩
-  · exact good_silent cfg u r (by rw [ho, h]) hr
+  · refine good_silent cfg u r (by rw [ho, h]) hr ?_
+    intro n hn
+    rcases hret with h' | h'
+    · rw [h', h] at hn; cases hn
+    · exact h' n hn
   · exact good_emit cfg u r _ (wf_okMsg cfg u body data hu hcap hfit) (by rw [ho, h]) hr
 
 theorem replyErr_ret_ne_panic (cfg : Cfg) (u : Nat) (e : IoErr) (s : String) :
@@ -196,15 +216,16 @@ theorem replyOk_ret_ne_panic (cfg : Cfg) (u : Nat) (b d : Bytes) (s : String) :
 
 theorem good_errRes (cfg : Cfg) (u : Nat) (calls : List Call) (al : List Nat) (e : IoErr)
     (hu : u < 2 ^ 64) (he : e.Sane) : Good cfg u (errRes cfg u calls al e) :=
-  good_of_replyErr cfg u e _ hu he rfl (by intro s; exact replyErr_ret_ne_panic _ _ _ _)
+  good_of_replyErr cfg u e _ hu he rfl (by intro s; exact replyErr_ret_ne_panic _ _ _ _) (Or.inl rfl)
 
 theorem good_okRes (cfg : Cfg) (u : Nat) (calls : List Call) (al : List Nat) (body data : Bytes) (mn : Nat)
     (hu : u < 2 ^ 64) (hcap : cfg.cap < 2 ^ 32) : Good cfg u (okRes cfg u calls al body data mn) :=
-  good_of_replyOk cfg u body data _ hu hcap rfl (by intro s; exact replyOk_ret_ne_panic _ _ _ _ _)
+  good_of_replyOk cfg u body data _ hu hcap rfl (by intro s; exact replyOk_ret_ne_panic _ _ _ _ _) (Or.inl rfl)
 
 theorem good_badName (cfg : Cfg) (u : Nat) (calls : List Call) (al : List Nat) (hu : u < 2 ^ 64) :
     Good cfg u (badName cfg u calls al) :=
   good_of_replyErr cfg u (.os EINVAL) _ hu (by simp [IoErr.Sane, EINVAL]) rfl (by intro s; simp [badName])
+    (Or.inr (by intro n; simp [badName]))
 
 theorem sane_os (n : Nat) (h1 : 1 ≤ n) (h2 : n ≤ 4095) : (IoErr.os n).Sane := ⟨h1, h2⟩
 
@@ -246,9 +267,15 @@ theorem good_splitErr (cfg : Cfg) (u : Nat) (calls : List Call) (e : IoErr) (jun
   cases hf : cfg.fusedev
   · exact { noPanic := by intro s; simp, oneWrite := by simp [hf], sepF := by simp [hf], sepV := by simp [hf],
             sysWf := by simp [hf],
-            areaWf := by right; simp [hf]; exact wfArea_header_junk _ u junk hu (errField_ok e he) }
+            areaWf := by right; simp [hf]; exact wfArea_header_junk _ u junk hu (errField_ok e he),
+            okReplied := by
+              intro n _ _
+              have hl : (outHeader 16 (errField e) u ++ junk).length ≠ 0 := by simp [outHeader_length]
+              simp only [Replied, hf, Bool.false_eq_true, if_false]
+              intro hc; rw [hc] at hl; simp at hl }
   · exact { noPanic := by intro s; simp, oneWrite := by simp [hf], sepF := by simp [hf], sepV := by simp [hf],
-            sysWf := by simp [hf]; exact wf_errHeader u e hu he, areaWf := by left; simp [hf] }
+            sysWf := by simp [hf]; exact wf_errHeader u e hu he, areaWf := by left; simp [hf],
+            okReplied := by intro n _ _; simp [Replied, hf] }
 
 theorem good_splitOk (cfg : Cfg) (u : Nat) (calls : List Call) (payload : Bytes)
     (hu : u < 2 ^ 64) (hcap : cfg.cap < 2 ^ 32) (hfit : 16 + payload.length ≤ cfg.cap) :
@@ -353,9 +380,10 @@ theorem good_dirReply (cfg : Cfg) (u : Nat) (calls : List Call) (size : Nat) (pl
   · exact good_splitErr _ _ _ _ _ hu (sane_os _ (by decide) (by decide))
 
 /-- DESTROY: the reply of `okRes` with the return value overridden -/
-theorem good_withRet (cfg : Cfg) (u : Nat) (r : Res) (rt : Ret) (h : Good cfg u r) (hr : ∀ s, rt ≠ .panic s) :
-    Good cfg u { r with ret := rt } :=
-  { noPanic := hr, oneWrite := h.oneWrite, sepF := h.sepF, sepV := h.sepV, sysWf := h.sysWf, areaWf := h.areaWf }
+theorem good_withRet (cfg : Cfg) (u : Nat) (r : Res) (h : Good cfg u r) :
+    Good cfg u { r with ret := .ok 0 } :=
+  { noPanic := by intro s; simp, oneWrite := h.oneWrite, sepF := h.sepF, sepV := h.sepV, sysWf := h.sysWf,
+    areaWf := h.areaWf, okReplied := by intro n hn hp; simp at hn; omega }
 
 theorem good_lookupReply (cfg : Cfg) (u : Nat) (calls : List Call) (al : List Nat) (a : Ans)
     (hu : u < 2 ^ 64) (hcap : cfg.cap < 2 ^ 32) (ha : ∀ e, a = .err e → e.Sane) :
@@ -372,7 +400,7 @@ theorem good_notifyReply (cfg : Cfg) (u : Nat) (calls : List Call) (a : Ans)
   unfold notifyReply
   split
   · next e => exact good_errRes _ _ _ _ _ hu (ha e rfl)
-  · exact good_silent _ _ _ rfl (by intro s; simp)
+  · exact good_silent _ _ _ rfl (by intro s; simp) (by intro n h; simp at h; omega)
 
 theorem good_initReply (cfg : Cfg) (u : Nat) (calls : List Call) (mn ra cap : Nat) (a : Ans)
     (hu : u < 2 ^ 64) (hcap : cfg.cap < 2 ^ 32) (ha : ∀ e, a = .err e → e.Sane) :
@@ -406,10 +434,10 @@ macro "good_step" : tactic => `(tactic| first
   | exact good_notifyReply _ _ _ _ ‹_› (fun e h => ‹FsSane _› _ e h)
   | exact good_readReply _ _ _ _ ‹_› ‹_› (by unfold OUT_HDR at *; omega) (fun e h => ‹FsSane _› _ e h)
   | exact good_dirReply _ _ _ _ _ _ ‹_› ‹_› (by unfold OUT_HDR at *; omega) (fun e h => ‹FsSane _› _ e h)
-  | exact good_withRet _ _ _ _ (good_okRes _ _ _ _ _ _ _ ‹_› ‹_›) (by intro s; simp)
+  | exact good_withRet _ _ _ (good_okRes _ _ _ _ _ _ _ ‹_› ‹_›)
   | split
   | dsimp only
-  | exact good_silent _ _ _ rfl (by intro s; simp))
+  | exact good_silent _ _ _ rfl (by intro s; simp) (by intro n h; simp at h; omega))
 
 /-- every handler keeps the reply-stream invariant -/
 theorem good_handleBody (cfg : Cfg) (fs : Call → Ans) (ctx : Ctx) (calls0 : List Call)
